@@ -233,6 +233,32 @@ def rule_d(ctx, ix):
     ctx.ob(R, g.construct, 'categories and codes come from one unique() call (or codes are looked up in the given categories)',
            len(calls) == 1 and len(pair) == 1 and any(call_name(x) == 'index_lookup' for x in calls_in(g.node)),
            detail='categorical_ndarray no longer derives categories and codes together', where=g.where)
+    # rank: the lookup helper handles one-dimensional input only (it builds a table with one row per element); a view of an
+    # N-d categorical array is N-d
+    il = ix.func('glue.utils.array.index_lookup')
+    p0 = il.params[0]
+    one_d = any(isinstance(x, ast.Call) and unparse(x.func) in ('pd.DataFrame', 'pandas.DataFrame') and
+                any(isinstance(n_, ast.Name) and n_.id == p0 for n_ in ast.walk(x)) for x in ast.walk(il.node)) and \
+        not any(isinstance(x, ast.Call) and call_name(x) in ('ravel', 'flatten') and p0 in unparse(x) for x in ast.walk(il.node))
+    for x in calls_in(g.node):
+        if call_name(x) != 'index_lookup':
+            continue
+        a0 = x.args[0]
+        flat = (isinstance(a0, ast.Call) and call_name(a0) in ('ravel', 'flatten')) or \
+            (isinstance(a0, ast.Attribute) and a0.attr == 'flat') or \
+            (isinstance(a0, ast.Call) and call_name(a0) == 'reshape' and unparse(a0.args[0]) in ('-1', '(-1,)'))
+        pm_g = parent_map(g.node)
+        par = pm_g.get(id(x))
+        reshaped = isinstance(par, ast.Attribute) and par.attr == 'reshape'
+        if not one_d:
+            ctx.ob(R, g.construct + ' rank', 'the lookup helper accepts arrays of any rank', True, nontrivial=False)
+            continue
+        ctx.idiom(R, g.construct + ' rank', 'the (one-dimensional) lookup helper receives the flattened view and its result is reshaped',
+                  accepted=flat and reshaped, absent=unparse(a0) == g.self_name or (flat != reshaped),
+                  detail_absent='categorical_ndarray._update_categories_and_codes hands `%s` to index_lookup, which handles one-dimensional '
+                                'input only (it builds a table with one row per element): the codes of a view of a 2-d or 3-d categorical '
+                                'attribute cannot be computed (ValueError), so values / masks on such views are not those of the full '
+                                'array' % unparse(a0), shape=unparse(x), where=where(g, x))
 
 
 ID_LIKE = {'cid', 'cids', 'weights', 'target_cid'}
